@@ -328,8 +328,14 @@ class Prop(BaseProp):
                     #  checks written as assert statements are gone then)
                     popt = {"PYTHONOPTIMIZE": "1"} if (n + idx) % 3 == 0 or (n + idx) % 9 == 0 else {}
                     res.see("cli_interpreter_modes", "optimised (-O)" if popt else "default")
-                    rc, so, se = runner.run_cli([src, "-o", os.path.join(sb, "cliout")], cwd=sb, home=os.path.join(sb, "home"), entry=entry,
-                                                env_extra=popt)
+                    if (n + idx) % 4 == 1:
+                        # standard error (and output) attached to a terminal, as when a person runs the command
+                        rc, so, se = runner.run_cli_pty([src, "-o", os.path.join(sb, "cliout")], cwd=sb, home=os.path.join(sb, "home"),
+                                                        entry=entry, env_extra=popt, on_tty=("stdout", "stderr"))
+                        res.count("cli_runs_on_a_terminal")
+                    else:
+                        rc, so, se = runner.run_cli([src, "-o", os.path.join(sb, "cliout")], cwd=sb, home=os.path.join(sb, "home"), entry=entry,
+                                                    env_extra=popt)
                     res.count("cli_runs")
                     res.see("cli_entry_points", entry)
                     if rc == 0:
